@@ -139,6 +139,9 @@ def oracleC04 (o : Opts) (a b : Json) (implEq implEqRev implRefl : Bool) : Strin
   let cls (why : String) : String :=
     if keyTwin o (subterms a ++ subterms b) then "kf KF-C01-keytwin " ++ why
     else if identPerm o (subterms a ++ subterms b) then "kf KF-C01-identperm " ++ why
+    -- KF-C04-setprecision: in the set readings arrays are compared by hash codes, which ignore the precision: numbers
+    -- within eps INSIDE arrays are not Equal although the advertised equivalence holds (one-directional: Equals says no)
+    else if setMode o && hasPrecisionPair o a b && spec && !implEq then "kf KF-C04-setprecision " ++ why
     else if setMode o && (hasNegZero a || hasNegZero b) && equivB o a b && !implEq then "kf KF-C04-negzero " ++ why
     else if !(aliasFree o (hashedNodes a ++ hashedNodes b)) then "kf KF-C04-alias " ++ why
     else "fail " ++ why
